@@ -72,6 +72,28 @@ Theorem search_fault_surfaces : forall rk bad key clamp offs,
 Proof. exact C17_Fault.search_fault_surfaces. Qed.
 Print Assumptions search_fault_surfaces.
 
+(* WHERE a run is cut into tables (WriteRun's target / look-ahead policy) is not part of the property: the round trip
+   holds for EVERY way of cutting a valid run into consecutive chunks - every table reads back exactly its chunk by
+   point lookup and prefix scan, fresh and re-opened, the tables read as one sorted level give back the whole run -
+   and for non-empty chunks the key ranges are disjoint and ascending. *)
+Theorem any_cut_reads_back : forall tp chunks, params_ok tp -> run_ok (concat chunks) ->
+  Forall (fun c => (forall key, table_get (write_table tp c) key = get_spec c key) /\
+                   (forall key, table_get (reopen (write_table tp c)) key = get_spec c key) /\
+                   (forall p, table_scan_prefix (write_table tp c) p = Some (scan_spec c p)) /\
+                   (forall p, table_scan_prefix (reopen (write_table tp c)) p = Some (scan_spec c p))) chunks /\
+  (forall p, level_scan (map (write_table tp) chunks) p = Some (scan_spec (concat chunks) p)) /\
+  (forall key, level_get (map (write_table tp) chunks) key = get_spec (concat chunks) key) /\
+  (forall p, level_scan (map (fun c => reopen (write_table tp c)) chunks) p = Some (scan_spec (concat chunks) p)) /\
+  (forall key, level_get (map (fun c => reopen (write_table tp c)) chunks) key = get_spec (concat chunks) key).
+Proof. exact C17_Main.any_cut_reads_back. Qed.
+Print Assumptions any_cut_reads_back.
+
+Theorem any_cut_ranges : forall chunks,
+  Forall (fun c => c <> []) chunks -> keys_sorted (concat chunks) = true ->
+  ranges_ascending chunks /\ Forall (fun c => keys_sorted c = true) chunks.
+Proof. exact C17_Main.any_cut_ranges. Qed.
+Print Assumptions any_cut_ranges.
+
 (* ---------- prefix scan ---------- *)
 Theorem table_scan_is_filter : forall tp es p,
   Forall entry_ok es -> table_scan_prefix (write_table tp es) p = Some (scan_spec es p).
